@@ -298,29 +298,49 @@ Section Meta.
   Definition call0 := {| c_fin := false; c_res := false; c_val := JNull; c_err := None |}.
 
   Record st := {
-    a_nid : Z; a_pend : list (Z * nat); a_calls : list call; a_buf : list N;
+    a_nid : Z;
+    a_issued : list Z;    (* ghost: every id ever written to the peer, in order *)
+    a_nores : list Z;     (* ghost: the ids among them that belong to sends without result *)
+    a_pend : list (Z * nat); a_calls : list call; a_buf : list N;
     b_buf : list N; b_log : list event;
     wab : list N; wba : list N;                 (* bytes written and not yet delivered *)
     bad : bool                                  (* the model was asked something it does not cover *)
   }.
-  Definition st0 := {| a_nid := 0; a_pend := []; a_calls := []; a_buf := []; b_buf := []; b_log := [];
+  Definition st0 := {| a_nid := 0; a_issued := []; a_nores := []; a_pend := []; a_calls := []; a_buf := []; b_buf := []; b_log := [];
                        wab := []; wba := []; bad := false |}.
 
   Definition packet (j : json) : option (list N) :=
     match dumps j with Some b => Some (escape b ++ D) | None => None end.
 
-  (* Protocol.send through Node.__on_remote *)
-  Definition a_send (s : st) (e : event) : st :=
+  (* how the caller uses Protocol.send:
+     MCall      - a handler returns the generator and waits for the result (Node.__on_remote, Client.send,
+                  Server.send);
+     MNoResAttr - the same, but event.node_without_result is set: the generator ends after the write;
+     MNoResApi  - Server.send(no_result=True) / send_to / send_all: the first next() is done by Server.send
+                  and its value thrown away, nobody waits *)
+  Inductive smode := MCall | MNoResAttr | MNoResApi.
+
+  (* Protocol.send: every send that passes the firewall takes a fresh id, with or without result; only a
+     send with result registers the event in __events *)
+  Definition a_send (s : st) (e : event) (m : smode) : st :=
     if fw_send e then
       match packet (event_data e (JInt (a_nid s))) with
-      | Some b => {| a_nid := a_nid s + 1; a_pend := a_pend s ++ [(a_nid s, length (a_calls s))];
+      | Some b => {| a_nid := a_nid s + 1; a_issued := a_issued s ++ [a_nid s];
+                     a_nores := match m with MCall => a_nores s | _ => a_nores s ++ [a_nid s] end;
+                     a_pend := match m with
+                               | MCall => a_pend s ++ [(a_nid s, length (a_calls s))]
+                               | _ => a_pend s
+                               end;
                      a_calls := a_calls s ++ [call0]; a_buf := a_buf s; b_buf := b_buf s;
                      b_log := b_log s; wab := wab s ++ b; wba := wba s; bad := bad s |}
-      | None => {| a_nid := a_nid s; a_pend := a_pend s; a_calls := a_calls s; a_buf := a_buf s;
+      | None => {| a_nid := a_nid s; a_issued := a_issued s; a_nores := a_nores s; a_pend := a_pend s;
+                   a_calls := a_calls s; a_buf := a_buf s;
                    b_buf := b_buf s; b_log := b_log s; wab := wab s; wba := wba s; bad := true |}
       end
-    else {| a_nid := a_nid s; a_pend := a_pend s;
-            a_calls := a_calls s ++ [{| c_fin := true; c_res := false; c_val := JNull; c_err := None |}];
+    else {| a_nid := a_nid s; a_issued := a_issued s; a_nores := a_nores s; a_pend := a_pend s;
+            (* yield Value(event, self): seen by the waiting handler, discarded by Server.send(no_result) *)
+            a_calls := a_calls s ++ [{| c_fin := match m with MNoResApi => false | _ => true end;
+                                        c_res := false; c_val := JNull; c_err := None |}];
             a_buf := a_buf s; b_buf := b_buf s; b_log := b_log s; wab := wab s; wba := wba s;
             bad := bad s |}.
 
@@ -389,7 +409,7 @@ Section Meta.
   Definition b_read (s : st) (data : list N) : st :=
     let '(js, buf) := feed json parse D (b_buf s) data in
     let '(l, o, ol, ab, bd) := b_packets js in
-    {| a_nid := a_nid s; a_pend := a_pend s; a_calls := a_calls s; a_buf := a_buf s;
+    {| a_nid := a_nid s; a_issued := a_issued s; a_nores := a_nores s; a_pend := a_pend s; a_calls := a_calls s; a_buf := a_buf s;
        b_buf := if ab then [] else buf; b_log := b_log s ++ l; wab := wab s; wba := wba s ++ o ++ ol;
        bad := bad s || bd |}.
 
@@ -455,35 +475,57 @@ Section Meta.
   Definition a_read (s : st) (data : list N) : st :=
     let '(js, buf) := feed json parse D (a_buf s) data in
     let '(calls, ab, bd) := a_packets (a_pend s) (a_calls s) js in
-    {| a_nid := a_nid s; a_pend := filter (fun p => negb (finished calls p)) (a_pend s);
+    {| a_nid := a_nid s; a_issued := a_issued s; a_nores := a_nores s; a_pend := filter (fun p => negb (finished calls p)) (a_pend s);
        a_calls := calls; a_buf := if ab then [] else buf;
        b_buf := b_buf s; b_log := b_log s; wab := wab s; wba := wba s;
        bad := bad s || bd |}.
 
-  Inductive op := OSend (e : event) | OInjAB (b : list N) | OInjBA (b : list N)
-                | OAB (n : nat) | OBA (n : nat).       (* deliver n bytes (0 = everything) as one read *)
+  Inductive op := OSend (e : event) (m : smode) | OInjAB (b : list N) | OInjBA (b : list N)
+                | OAB (n : nat) | OBA (n : nat)        (* deliver n bytes (0 = everything) as one read *)
+                | OABP | OBAP.                         (* deliver one whole packet (up to and including the
+                                                          next delimiter; everything if there is none) *)
+
+  Definition take_packet (l : list N) : list N * list N :=
+    match split D l with
+    | h :: _ :: _ => (firstn (length h + length D) l, skipn (length h + length D) l)
+    | _ => (l, [])
+    end.
 
   Definition take (n : nat) (l : list N) : list N * list N :=
     match n with O => (l, []) | _ => (firstn n l, skipn n l) end.
 
   Definition step (s : st) (o : op) : st :=
     match o with
-    | OSend e => a_send s e
-    | OInjAB b => {| a_nid := a_nid s; a_pend := a_pend s; a_calls := a_calls s; a_buf := a_buf s;
+    | OSend e m => a_send s e m
+    | OInjAB b => {| a_nid := a_nid s; a_issued := a_issued s; a_nores := a_nores s; a_pend := a_pend s; a_calls := a_calls s; a_buf := a_buf s;
                      b_buf := b_buf s; b_log := b_log s; wab := wab s ++ b; wba := wba s; bad := bad s |}
-    | OInjBA b => {| a_nid := a_nid s; a_pend := a_pend s; a_calls := a_calls s; a_buf := a_buf s;
+    | OInjBA b => {| a_nid := a_nid s; a_issued := a_issued s; a_nores := a_nores s; a_pend := a_pend s; a_calls := a_calls s; a_buf := a_buf s;
                      b_buf := b_buf s; b_log := b_log s; wab := wab s; wba := wba s ++ b; bad := bad s |}
     | OAB n => let '(d, rest) := take n (wab s) in
                match d with
                | [] => s
-               | _ => b_read {| a_nid := a_nid s; a_pend := a_pend s; a_calls := a_calls s;
+               | _ => b_read {| a_nid := a_nid s; a_issued := a_issued s; a_nores := a_nores s; a_pend := a_pend s; a_calls := a_calls s;
                                 a_buf := a_buf s; b_buf := b_buf s; b_log := b_log s; wab := rest;
                                 wba := wba s; bad := bad s |} d
                end
     | OBA n => let '(d, rest) := take n (wba s) in
                match d with
                | [] => s
-               | _ => a_read {| a_nid := a_nid s; a_pend := a_pend s; a_calls := a_calls s;
+               | _ => a_read {| a_nid := a_nid s; a_issued := a_issued s; a_nores := a_nores s; a_pend := a_pend s; a_calls := a_calls s;
+                                a_buf := a_buf s; b_buf := b_buf s; b_log := b_log s; wab := wab s;
+                                wba := rest; bad := bad s |} d
+               end
+    | OABP => let '(d, rest) := take_packet (wab s) in
+               match d with
+               | [] => s
+               | _ => b_read {| a_nid := a_nid s; a_issued := a_issued s; a_nores := a_nores s; a_pend := a_pend s; a_calls := a_calls s;
+                                a_buf := a_buf s; b_buf := b_buf s; b_log := b_log s; wab := rest;
+                                wba := wba s; bad := bad s |} d
+               end
+    | OBAP => let '(d, rest) := take_packet (wba s) in
+               match d with
+               | [] => s
+               | _ => a_read {| a_nid := a_nid s; a_issued := a_issued s; a_nores := a_nores s; a_pend := a_pend s; a_calls := a_calls s;
                                 a_buf := a_buf s; b_buf := b_buf s; b_log := b_log s; wab := wab s;
                                 wba := rest; bad := bad s |} d
                end
